@@ -116,6 +116,19 @@ func checkC08(c *Ctx) Meta {
 				}
 			})
 		}
+		// entries are never removed or the map replaced after construction
+		forgets := false
+		for fn := range c.AllFuncs {
+			for _, a := range fieldAccesses(fn) {
+				if a.Type == pkgMiner+".PoCMiner" && a.Field == "minedHeight" && (a.Kind == "mapdelete" || (a.Kind == "store" && outermost(fn).Name() != "NewPoCMiner")) {
+					forgets = true
+					c.Bad("C08-SUBMIT", "minedHeight:grows-only", c.Pos(a.In.Pos()), "a height already mined is removed from the double-mining set: after a reorganisation that offers it again the miner mines the same height a second time")
+				}
+			}
+		}
+		if !forgets {
+			c.OK("C08-SUBMIT", "minedHeight:grows-only", "", "no delete or replacement of minedHeight outside the constructor")
+		}
 		if len(bad) > 0 || n == 0 {
 			c.Bad("C08-SUBMIT", key, "", "the double-mining map is touched outside the generator goroutine (unsynchronised map): "+strings.Join(bad, "; "))
 		} else {
@@ -223,6 +236,43 @@ func checkBestProof(c *Ctx, f *ssa.Function) {
 			c.OK("C08-TARGET", key, c.Pos(tests[0].If.Pos()), "ProofTemplate constructed only behind bestQuality.Cmp(GetTarget(template.Timestamp)) > 0, bestQuality from getQualities")
 		} else {
 			c.Bad("C08-TARGET", key, c.Pos(f.Pos()), fmt.Sprintf("a template can be returned without its best quality exceeding the target at the template timestamp (gate=%v quality-from-getQualities=%v)", len(tests) > 0 && ok, okQ))
+		}
+	}
+	// the target compared is the target of the slot being tried: after every advance of the template
+	// timestamp the target is evaluated again before the next comparison
+	{
+		key := "syncGetBestProof:target-re-evaluated-for-every-slot"
+		gts := map[ssa.Instruction]bool{}
+		for _, g := range fieldCallsIn(f, "GetTarget") {
+			gts[g] = true
+		}
+		var cmps []ssa.Instruction
+		allInstrs(f, func(in ssa.Instruction) {
+			if cl, ok := in.(*ssa.Call); ok && calleeID(cl) == "(*math/big.Int).Cmp" && backSlice(cl.Call.Args[1]).hasFieldCall("GetTarget") {
+				cmps = append(cmps, cl)
+			}
+		})
+		stale := ""
+		nst := 0
+		for _, a := range fieldAccesses(f) {
+			if a.Kind != "store" || a.Field != "Timestamp" || !strings.HasSuffix(a.Type, "blockchain.PoCTemplate") {
+				continue
+			}
+			nst++
+			r := reach(f, a.In, nil, func(in ssa.Instruction) bool { return gts[in] })
+			for _, cmp := range cmps {
+				if r(cmp) {
+					stale = c.Pos(cmp.Pos())
+				}
+			}
+		}
+		switch {
+		case len(cmps) == 0 || nst == 0:
+			c.Bad("C08-TARGET", key, c.Pos(f.Pos()), "reason=anchor-missing: target comparison / timestamp advance")
+		case stale != "":
+			c.Bad("C08-TARGET", key, stale, "after the template timestamp advances to the next slot the comparison can use a target computed for an earlier slot: a block is returned whose quality does not exceed the target at its own timestamp (or the earliest eligible slot is missed)")
+		default:
+			c.OK("C08-TARGET", key, c.Pos(cmps[0].Pos()), "every path from a timestamp advance to the comparison passes GetTarget again")
 		}
 	}
 	// getQualities arguments
